@@ -424,10 +424,10 @@ class SibEv(Event):
             what="whole run (real run() loop on the virtual-time loop): the run ends — a worker returns a StopEvent, a worker fails without retry, "
                  "cancel_run arrives, or the run's timeout elapses — while a sibling is still in flight and writes to the stream WHEN IT IS "
                  "CANCELLED (try/finally, except CancelledError): exactly one terminal event of the matching kind, nothing published after it",
-            bounds={"schedule decisions": "3 (quick) / 5 (thorough), 3 options each", "workers": 2, "sibling": "streams on cancellation: in finally / in except CancelledError + re-raise / swallows the cancellation"})
+            bounds={"schedule decisions": "3 (quick) / 5 (thorough), 3 options each", "workers": 2, "sibling": "streams on cancellation: in finally / in except CancelledError + re-raise / swallows the cancellation / unwinds slowly (2 s)"})
 def ob_stop_vs_sibling_cleanup(c0: int, c1: int, c2: int, c3: int, c4: int, style: int, mode: int = 0) -> bool:
     """
-    pre: 0 <= c0 <= 2 and 0 <= c1 <= 2 and 0 <= c2 <= 2 and 0 <= c3 <= 2 and 0 <= c4 <= 2 and 0 <= style <= 2 and 0 <= mode <= 3
+    pre: 0 <= c0 <= 2 and 0 <= c1 <= 2 and 0 <= c2 <= 2 and 0 <= c3 <= 2 and 0 <= c4 <= 2 and 0 <= style <= 3 and 0 <= mode <= 3
     pre: THOROUGH_SIB or (c3 == 0 and c4 == 0)
     post: _
     """
@@ -437,7 +437,7 @@ def ob_stop_vs_sibling_cleanup(c0: int, c1: int, c2: int, c3: int, c4: int, styl
     from workflows import Context, Workflow, step
     from workflows.events import Event
 
-    style, c0, c1, c2, c3, c4 = conc(style, 0, 2), conc(c0, 0, 2), conc(c1, 0, 2), conc(c2, 0, 2), conc(c3, 0, 2), conc(c4, 0, 2)
+    style, c0, c1, c2, c3, c4 = conc(style, 0, 3), conc(c0, 0, 2), conc(c1, 0, 2), conc(c2, 0, 2), conc(c3, 0, 2), conc(c4, 0, 2)
     mode = conc(mode, 0, 3)   # how the run ends: 0 a StopEvent, 1 a step failure (no retry), 2 cancel_run from outside, 3 the run's timeout
     env = Env([c0, c1, c2, c3, c4])  # concrete by now: every solver decision is taken before the scenario starts
     published: list = []
@@ -465,6 +465,12 @@ def ob_stop_vs_sibling_cleanup(c0: int, c1: int, c2: int, c3: int, c4: int, styl
                 if mode == 1:
                     raise RuntimeError("boom")
                 return StopEvent(result=0)
+            if style == 3:
+                try:
+                    await env.gate(1)
+                finally:
+                    await asyncio.shield(asyncio.sleep(2))      # a slow clean-up: the sibling needs longer to unwind than the runner waits for it
+                return None
             if style == 0:
                 try:
                     await env.gate(1)
